@@ -215,7 +215,7 @@ impl MonitorSet {
     pub fn restart_checks(&mut self, sim: &Sim, i: usize, post: &NodeSnap) {
         let id = post.id;
         if self.f.persist_before_send {
-            let hs = sim.nodes[i].store.initial_state().unwrap().hard_state;
+            let hs = sim.nodes[i].durable.initial_state().unwrap().hard_state;
             if post.term != hs.term || post.vote != hs.vote {
                 self.fail("restart-state", format!("node {} restarted with (term {}, vote {}) but its durable hard state is (term {}, vote {})", id, post.term, post.vote, hs.term, hs.vote));
             }
@@ -253,7 +253,7 @@ impl MonitorSet {
         if t == MT::MsgRequestPreVote || t == MT::MsgRequestPreVoteResponse || m.term == 0 {
             return;
         }
-        let store = &sim.nodes[i].store;
+        let store = &sim.nodes[i].durable;
         let hs = store.initial_state().unwrap().hard_state;
         let mut dterm = hs.term;
         self.cov("C06 released promise messages checked");
